@@ -480,7 +480,7 @@ pub fn auth(trace: &[Value]) -> Vec<Value> {
                             .map(|(i, x)| json!([i + 1, x])).collect())
                         .unwrap_or_default();
                     v.push(json!({"ev":"Rx","kind":"data","cls":first_cls,"ipk":first_ipk,"dfr":dfr,
-                        "authed":e["post"]["authed"],"same":false,"stchange":false,"preauthed":0,
+                        "authed":e["post"]["authed"],"same":false,"stchange":false,"preauthed":0,"open":false,
                         "id":-1,"t":e["t"]}));
                 }
             }
@@ -513,6 +513,8 @@ pub fn auth(trace: &[Value]) -> Vec<Value> {
                     v.push(json!({"ev":"Rx","kind":kind,"cls":e["cls"],"ipk":ipk,"dfr":dfr,
                         "authed":post["authed"].as_i64().unwrap_or(0) - pre["authed"].as_i64().unwrap_or(0),
                         "same":same,"stchange":pre["st"] != post["st"],"preauthed":pre["authed"],
+                        "open":pre["st"].as_i64().unwrap_or(9) <= 1 && post["st"].as_i64().unwrap_or(9) <= 1
+                            && post["err"] != true && e["damaged"] != true,
                         "id":e["id"],"t":e["t"]}));
                 }
             }
